@@ -25,3 +25,10 @@ Definition ex_entries : list entry :=
     {| prio := 0; ident := 3 |}; {| prio := 1; ident := 4 |} ].
 Example ex_mw : map ident (ssort ex_entries) = [2; 1; 3; 4; 0]%nat.
 Proof. reflexivity. Qed.
+
+(* three middlewares on the root, two groups, one middleware each, a route on the first group: the
+   route sees the root's three and its own group's, not the sibling's *)
+Example ex_groups :
+  map (map ident) (routes (rrun [RMw 0 0; RMw 0 0; RMw 0 0; RGroup 0; RGroup 0; RMw 1 0; RMw 2 0; RRoute 1; RRoute 2; RRoute 0]))
+  = [[0; 1; 2; 3]; [0; 1; 2; 4]; [0; 1; 2]]%nat.
+Proof. reflexivity. Qed.
